@@ -385,6 +385,7 @@ def draw_style(draw: Any) -> render_bp.Style:
         join_statements=draw(st.booleans()),
         proto_late=draw(st.integers(0, 3)) == 2,
         crlf=draw(st.integers(0, 3)) == 1,
+        op_spacing=draw(st.booleans()),
     )
 
 
